@@ -340,7 +340,7 @@ func RunC10(rt *Runtime, sc *Scenario) RunResult {
 			return res
 		}
 		res.Counters["builds"]++
-		elog.Case(c, &out.Res)
+		elog.Case(c, &out.Res, needsSignBubble(w, c))
 		cfgText := c.Config
 		if cfgText == "" {
 			cfgText = w.Config
